@@ -17,10 +17,14 @@ Timing == IF Alpha = 1 THEN {<<2970, 33>>, <<0, 0>>, <<-3000, 1>>, <<4000000, 10
           ELSE {<<2970, 33>>, <<-3000, 0>>}
 Ev(a, s, w, ts, t) == [a |-> a, s |-> s, w |-> w, ts |-> ts, t |-> t, ntp |-> NtpW, rate |-> 0]
 Bind(s, r)         == [a |-> "bind", s |-> s, w |-> 0, ts |-> 0, t |-> 0, ntp |-> NtpW, rate |-> r]
-Warm == <<Bind(1, 90000), Bind(2, 48000), Ev("rtp", 1, Base % M, 0, 0), Ev("rtp", 1, (Base + 2) % M, 2970, 33),
-          Ev("rtp", 2, 7, 0, 33)>>
-Init == /\ x = RtpStep(C1, RtpStep(C1, RFresh, Base % M, 0, 0), (Base + 2) % M, 2970, 33)
-        /\ now = 33
+\* Alpha = 1 closes the first interval in the warm-up (so that jumps of up to Hist stay inside the history),
+\* Alpha = 2 leaves the first interval (which starts at the first packet) open
+Warm0 == <<Bind(1, 90000), Bind(2, 48000), Ev("rtp", 1, Base % M, 0, 0), Ev("rtp", 1, (Base + 2) % M, 2970, 33),
+           Ev("rtp", 2, 7, 0, 33)>>
+Warm == IF Alpha = 1 THEN Append(Warm0, Ev("report", 0, 0, 0, 40)) ELSE Warm0
+X0 == RtpStep(C1, RtpStep(C1, RFresh, Base % M, 0, 0), (Base + 2) % M, 2970, 33)
+Init == /\ x = IF Alpha = 1 THEN ReportStep(X0) ELSE X0
+        /\ now = IF Alpha = 1 THEN 40 ELSE 33
         /\ aux = 7
         /\ hist = Warm
 Next == /\ Len(hist) < Len(Warm) + L
